@@ -242,6 +242,11 @@ fn early_record(monitor: &str, signature: &str, message: &str, case: &Value) {
 }
 
 /// (violations recorded so far, seconds since the first one)
+/// Set when a thread of the harness itself has panicked (an expectation of the harness about its own
+/// operands failed — a broken engine can do that). If violations had been recorded by then, they are
+/// what was observed and are reported; otherwise the run is inconclusive.
+pub static HARNESS_FAILED: std::sync::atomic::AtomicBool = std::sync::atomic::AtomicBool::new(false);
+
 pub fn early_state() -> (Vec<Violation>, f64) {
     let v = EARLY.lock().map(|g| g.clone()).unwrap_or_default();
     let t = EARLY_FIRST.get().map(|i| i.elapsed().as_secs_f64()).unwrap_or(0.0);
